@@ -13,6 +13,11 @@ CHECKS = {
     note="Order-independence of the inferred table is proved in the model only through the algebraic laws of unify/set at this commit (the chaotic-iteration theorem is planned); it is checked differentially and by the permutation oracle. Known finding: incompatible kinds keep the first one (documented print-and-ignore). pymbolic.flatten is third-party and applied on the harness side.",
     technique="Lean 4 proof (case analysis + grind) over hand-written model; generated table checked by decide; differential correspondence + permutation oracle",
     ref="7/C14"),
+ "C10": dict(
+    text="Lean 4 theorems over the model of verify_code (four passes + exception aggregator): the iterative cycle check terminates (decreasing potential), a reported cycle is real and no report implies a rank function (ghost-framed DFS invariant), acceptance <-> the four well-formedness clauses, never another exception, every rejection carries a message, accepted phases resolve every dependency and admit a rank function (what planner and lowering rely on). Correspondence: exhaustive over all digraphs on <= 3 statements with self-loops, dangling and cross-phase targets (4 in the thorough tier) x switch targets x flag assignments, plus random multi-phase methods; compared: outcome class and message kinds; accepted methods are pushed through create_ast_from_phase and the controller's planner.",
+    note="Hypothesis of the verifier-level theorems: statement ids unique within a phase. The iteration order of each depends_on frozenset is read off the real object. Message wording is not modelled (only kinds).",
+    technique="Lean 4 proof (DFS frame invariant, potential function, case analysis) over hand-written model; exhaustive small-scope + random differential correspondence; independent Kahn oracle",
+    ref="7/C10"),
 }
 
 NOT_APPLICABLE = {}
